@@ -33,7 +33,7 @@ func generate(run *common.Run, n int) []*Case {
 }
 
 func (g *genCfg) genAny(id string) *Case {
-	switch x := g.rng.Intn(20); {
+	switch x := g.rng.Intn(23); {
 	case x < 8:
 		return g.genCall("s2h", id)
 	case x < 15:
@@ -42,17 +42,146 @@ func (g *genCfg) genAny(id string) *Case {
 		return g.genMethodCase(id)
 	case x < 18:
 		return g.genRetainCase(id)
+	case x < 20:
+		return g.genVariadicCtx(id)
+	case x < 21:
+		for {
+			if c := g.genBuiltinInMultiReturn(id); c != nil {
+				return c
+			}
+		}
 	}
 	return g.genVarCase(id)
+}
+
+// genVariadicCtx: the shapes of the repaired findings F07-2 / F07-4, kept in the in-domain stream — a variadic host function
+// or method called WITHOUT variadic arguments, or with `xs...`, in every call context (direct in all result contexts, go,
+// defer) and through every way of naming the callee (hp.F, a function variable, a variable of a script-written function
+// type, a method of a host value, a method value).
+func (g *genCfg) genVariadicCtx(id string) *Case {
+	r := g.rng
+	ctxOf := func(sig *TypeD) string {
+		switch r.Intn(5) {
+		case 0:
+			return "defer"
+		case 1:
+			return "go"
+		case 2:
+			return "stmt"
+		}
+		c := g.genCtx(sig)
+		if c == "blank" {
+			c = "define"
+		}
+		return c
+	}
+	if r.Intn(3) == 0 {
+		var c *Case
+		for {
+			c = g.genMethodCase(id)
+			if c.Sig.Variadic {
+				break
+			}
+		}
+		c.Blank = nil
+		c.Recv = []string{"ptr", "ptr", "mvalue", "embedded"}[r.Intn(4)]
+		c.Ctx = ctxOf(c.Sig)
+		n := len(c.Sig.In) - 1
+		c.Args, c.Forms, c.Spread = nil, nil, false
+		ng := *g
+		ng.noFuncs = true
+		for _, pt := range c.Sig.In[:n] {
+			c.Args = append(c.Args, ng.gen(pt, 0))
+			c.Forms = append(c.Forms, "var")
+		}
+		if r.Intn(2) == 0 {
+			c.Spread = true
+			c.Args = append(c.Args, ng.gen(c.Sig.In[n], 0))
+			c.Forms = append(c.Forms, "var")
+		}
+		return c
+	}
+	e := g.one("int", "string", "hp.Pt", "[]int", "interface{}", "float64", "*hp.Pt", "uint8", "hp.Color", "map[string]int")
+	var ins, outs []*TypeD
+	for i := r.Intn(3); i > 0; i-- {
+		ins = append(ins, g.one("int", "string", "hp.Color", "map[string]int", "[]string", "hp.Pt", "interface{}"))
+	}
+	ins = append(ins, typeByID("[]"+e.ID))
+	for i := r.Intn(3); i > 0; i-- {
+		outs = append(outs, g.one("int", "string", "bool", "[]"+e.ID))
+	}
+	c := g.call("s2h", id, funcType(ins, outs, true))
+	c.Ctx = ctxOf(c.Sig)
+	c.Callee = []string{"", "", "fnvar", "fntyped"}[r.Intn(4)]
+	n := len(ins) - 1
+	ng := *g
+	ng.noFuncs = true
+	for _, pt := range ins[:n] {
+		c.Args = append(c.Args, ng.gen(pt, 0))
+		c.Forms = append(c.Forms, g.form(pt, c.Args[len(c.Args)-1]))
+	}
+	if r.Intn(2) == 0 {
+		c.Spread = true
+		c.Args = append(c.Args, ng.gen(ins[n], 0))
+		c.Forms = append(c.Forms, "var")
+	}
+	return c
 }
 
 // featuresFor: the generator features a class needs.
 func featuresFor(cls string) []string {
 	switch cls {
-	case "builtin-in-multi-return", "script-iface", "methodful-in-empty", "script-dyn-indirect", "eval-qualified-var", "var-assign-direct":
+	case "script-iface", "methodful-in-empty", "script-dyn-indirect", "eval-qualified-var", "var-assign-direct":
 		return []string{cls}
 	}
 	return nil
+}
+
+// genBuiltinInMultiReturn: a script function whose multi-value return has a builtin call (len) written inline as a non-first
+// operand, called by the host through its wrapper (or handed to the host as a callback): the shape of F23 / F07-1, repaired
+// by b3c279d and kept in the in-domain stream.
+func (g *genCfg) genBuiltinInMultiReturn(id string) *Case {
+	r := g.rng
+	lenable := g.one("[]int", "map[string]int", "string", "[]hp.Pt", "map[string][]int", "[3]int")
+	ins := []*TypeD{g.genType(1, false, true), lenable}
+	if r.Intn(2) == 0 {
+		ins = append(ins, g.genType(1, false, true))
+	}
+	outs := []*TypeD{ins[0], typeByID("int")}
+	if r.Intn(2) == 0 {
+		outs = append(outs, ins[len(ins)-1])
+	}
+	dir := []string{"h2s", "h2s", "s2h"}[r.Intn(3)]
+	if dir == "s2h" {
+		// the script-side function is then a callback handed to the host
+		cbT := funcType(ins, outs, false)
+		if !cbT.hostExpressible() {
+			return nil
+		}
+		sig := funcType([]*TypeD{cbT}, outs, false)
+		c := g.call("s2h", id, sig)
+		c.Body.Rets = nil
+		var args []*Expr
+		for _, it := range ins {
+			args = append(args, g.genArgExpr(it, nil, 1))
+		}
+		for j := range outs {
+			c.Body.Rets = append(c.Body.Rets, &Expr{Op: "call", I: 0, J: j, Args: args})
+		}
+		c.Body.Rets = c.Body.Rets[:1] // one call, first result (the other results are observed by the callback's own recording)
+		c.Sig = funcType([]*TypeD{cbT}, outs[:1], false)
+		cb := g.genBodyIn(cbT, 1, nil)
+		cb.Rets[1] = &Expr{Op: "len", I: 1}
+		cb.Direct = true
+		c.Args = []*Val{{T: cbT, Fn: cb}}
+		c.Forms = []string{"lit"}
+		return c
+	}
+	c := g.call(dir, id, funcType(ins, outs, false))
+	c.Body.Rets[1] = &Expr{Op: "len", I: 1}
+	c.Body.Direct = true
+	g.genArgs(c)
+	return c
 }
 
 func (g *genCfg) one(ids ...string) *TypeD { return typeByID(ids[g.rng.Intn(len(ids))]) }
@@ -78,53 +207,6 @@ func (g *genCfg) call(dir, id string, sig *TypeD) *Case {
 func (g *genCfg) genFor(cls, id string) *Case {
 	r := g.rng
 	switch cls {
-	case "defer-spread":
-		e := g.one("int", "string", "hp.Pt", "[]int", "interface{}", "float64", "*hp.Pt")
-		var ins []*TypeD
-		for i := r.Intn(3); i > 0; i-- {
-			ins = append(ins, g.one("int", "string", "hp.Color", "map[string]int"))
-		}
-		ins = append(ins, typeByID("[]"+e.ID))
-		c := g.call("s2h", id, funcType(ins, nil, true))
-		c.Ctx = "defer"
-		g.genArgs(c)
-		if !c.Spread {
-			return nil
-		}
-		return c
-	case "variadic-empty":
-		if r.Intn(3) == 0 {
-			c := g.genMethodCase(id)
-			if !c.Sig.Variadic {
-				return nil
-			}
-			c.Args, c.Forms, c.Spread = c.Args[:0], c.Forms[:0], false
-			c.Ctx = g.genCtx(c.Sig)
-			if c.Ctx == "defer" || c.Ctx == "blank" {
-				c.Ctx = "define"
-			}
-			ng := *g
-			for _, pt := range c.Sig.In[:len(c.Sig.In)-1] {
-				c.Args = append(c.Args, ng.gen(pt, 0))
-				c.Forms = append(c.Forms, "var")
-			}
-			for k, a := range c.Args {
-				if a.T.Kind == KFunc && a.Nil {
-					c.Args[k] = &Val{T: a.T, Fn: g.genBody(a.T, 1, false)}
-				}
-			}
-			return c
-		}
-		c := g.genCall("s2h", id)
-		if !c.Sig.Variadic {
-			return nil
-		}
-		n := len(c.Sig.In) - 1
-		if len(c.Args) < n {
-			return nil
-		}
-		c.Args, c.Forms, c.Spread, c.ArgSrc = c.Args[:n], c.Forms[:n], false, ""
-		return c
 	case "method-value-variadic":
 		c := g.genMethodCase(id)
 		c.Recv = "mvalue"
@@ -133,6 +215,58 @@ func (g *genCfg) genFor(cls, id string) *Case {
 			if pt.Kind == KBasic && !(c.Spread && k == len(c.Args)-1) && a.T.Kind == KBasic {
 				c.Forms[k] = "const"
 			}
+		}
+		return c
+	case "method-value-script-pointer":
+		c := g.genMethodCase(id)
+		c.Recv = "sptrmv"
+		if c.Ctx == "go" {
+			c.Ctx = "stmt"
+		}
+		return c
+	case "host-recv-rebound":
+		c := g.genMethodCase(id)
+		if c.Method == "Apply" || c.Method == "String" {
+			return nil
+		}
+		c.Rebind = true
+		if r.Intn(2) == 0 {
+			c.Recv = "mvalue"
+			if c.Ctx == "go" {
+				c.Ctx = "stmt"
+			}
+		} else {
+			c.Recv, c.Ctx, c.Blank = "ptr", "defer", nil
+		}
+		return c
+	case "spread-nil-literal":
+		c := g.genVariadicCtx(id)
+		if !c.Spread {
+			return nil
+		}
+		n := len(c.Args) - 1
+		c.Args[n] = &Val{T: c.Args[n].T, Nil: true}
+		c.Forms[n] = "const"
+		return c
+	case "spread-via-func-value":
+		var ins []*TypeD
+		ins = append(ins, g.one("func() int", "func(int) int", "fmt.Stringer", "error", "io.Writer", "func(string) (int, error)"))
+		if r.Intn(2) == 0 {
+			ins = append(ins, g.one("int", "string", "hp.Pt"))
+		}
+		ins = append(ins, typeByID("[]"+g.one("int", "string", "hp.Pt", "interface{}").ID))
+		c := g.call("s2h", id, funcType(ins, []*TypeD{typeByID("int")}, true))
+		c.Callee = []string{"fntyped", "fntyped", "fnvar"}[r.Intn(3)]
+		c.Ctx = g.genCtx(c.Sig)
+		if c.Ctx == "blank" || c.Ctx == "go" || c.Ctx == "defer" {
+			c.Ctx = "define"
+		}
+		for tries := 0; tries < 8 && !c.Spread; tries++ {
+			c.Args, c.Forms = nil, nil
+			g.genArgs(c)
+		}
+		if c.Args[0].T.Kind == KFunc && c.Args[0].Fn != nil {
+			c.Forms[0] = "decl"
 		}
 		return c
 	case "hostvar-nil-pointer":
@@ -150,47 +284,6 @@ func (g *genCfg) genFor(cls, id string) *Case {
 		c.VT = g.one("interface{}", "error", "fmt.Stringer")
 		vg := *g
 		c.V0, c.V1, c.V2 = vg.gen(c.VT, 0), vg.gen(c.VT, 0), vg.gen(c.VT, 0)
-		return c
-	case "builtin-in-multi-return":
-		lenable := g.one("[]int", "map[string]int", "string", "[]hp.Pt", "map[string][]int", "[3]int")
-		ins := []*TypeD{g.genType(1, false, true), lenable}
-		if r.Intn(2) == 0 {
-			ins = append(ins, g.genType(1, false, true))
-		}
-		outs := []*TypeD{ins[0], typeByID("int")}
-		if r.Intn(2) == 0 {
-			outs = append(outs, ins[len(ins)-1])
-		}
-		dir := []string{"h2s", "h2s", "s2h"}[r.Intn(3)]
-		if dir == "s2h" {
-			// the script-side function is then a callback handed to the host
-			cbT := funcType(ins, outs, false)
-			if !cbT.hostExpressible() {
-				return nil
-			}
-			sig := funcType([]*TypeD{cbT}, outs, false)
-			c := g.call("s2h", id, sig)
-			c.Body.Rets = nil
-			var args []*Expr
-			for _, it := range ins {
-				args = append(args, g.genArgExpr(it, nil, 1))
-			}
-			for j := range outs {
-				c.Body.Rets = append(c.Body.Rets, &Expr{Op: "call", I: 0, J: j, Args: args})
-			}
-			c.Body.Rets = c.Body.Rets[:1] // one call, first result (the other results are observed by the callback's own recording)
-			c.Sig = funcType([]*TypeD{cbT}, outs[:1], false)
-			cb := g.genBodyIn(cbT, 1, nil)
-			cb.Rets[1] = &Expr{Op: "len", I: 1}
-			cb.Direct = true
-			c.Args = []*Val{{T: cbT, Fn: cb}}
-			c.Forms = []string{"lit"}
-			return c
-		}
-		c := g.call(dir, id, funcType(ins, outs, false))
-		c.Body.Rets[1] = &Expr{Op: "len", I: 1}
-		c.Body.Direct = true
-		g.genArgs(c)
 		return c
 	case "script-iface":
 		c := g.genCall("h2s", id)
